@@ -302,6 +302,7 @@ def c03_3b(ctx):
            "validate_conditions branches on lock aggregates only through `before_X_absolute is Some` and `before_X_absolute <= X_absolute`",
            found=sorted(seen ^ exp)[:6], where=vb.fn.sp)
     E.is_ephemeral_exact(ctx, "C03.6")
+    E.assert_not_ephemeral_exact(ctx, "C03.6")
 
 
 def _leads_to_err(b, e):
